@@ -42,33 +42,32 @@ Proof.
   rewrite gen_fillnodata_upstream_eq by auto. reflexivity.
 Qed.
 
-(* basins.subbasins_streamorder (the `mask[idx0] is False` test never holds in interpreted mode, so the mask is ignored --
-   in the source as translated and in the model alike) *)
+(* basins.subbasins_streamorder, with its optional mask (`mask is not None and mask[idx0] == False` skips the cell) *)
 Lemma gen_sto_step_eq ds sq strord mask ms st i :
-  gen_subbasins_streamorder_step ds sq strord mask ms st i = sto_step ds strord ms st i.
+  gen_subbasins_streamorder_step ds sq strord mask ms st i = sto_step ds strord mask ms st i.
 Proof.
   destruct st as [sb ix]. unfold gen_subbasins_streamorder_step, sto_step.
-  change (nth i ds (length ds)) with (dsf ds i). rewrite !len_snoc. cbn [orb].
-  destruct (nth i strord 0 <? ms); [reflexivity|].
+  change (nth i ds (length ds)) with (dsf ds i). rewrite !len_snoc.
+  destruct (negb (mget mask i) || (nth i strord 0 <? ms)); [reflexivity|].
   destruct (negb (nth i strord 0 =? nth (dsf ds i) strord 0) || (dsf ds i =? i)%nat); reflexivity.
 Qed.
 
-Lemma sto_step_len ds strord ms st i : length (fst (sto_step ds strord ms st i)) = length (fst st).
+Lemma sto_step_len ds strord mask ms st i : length (fst (sto_step ds strord mask ms st i)) = length (fst st).
 Proof.
   destruct st as [sb ix]. unfold sto_step. cbn [fst].
-  destruct (nth i strord 0 <? ms); [reflexivity|].
+  destruct (negb (mget mask i) || (nth i strord 0 <? ms)); [reflexivity|].
   destruct (negb (nth i strord 0 =? nth (dsf ds i) strord 0) || (dsf ds i =? i)%nat); cbn [fst]; rewrite ?upd_length; reflexivity.
 Qed.
 
 Theorem gen_subbasins_streamorder_eq ds sq strord mask min_sto : (forall i, In i sq -> valid ds i) ->
-  gen_subbasins_streamorder ds sq strord mask min_sto = subbasins_streamorder ds sq strord min_sto.
+  gen_subbasins_streamorder ds sq strord mask min_sto = subbasins_streamorder ds sq strord mask min_sto.
 Proof.
   intros Hv. unfold gen_subbasins_streamorder, subbasins_streamorder. cbv zeta.
   set (ms := if min_sto <? 0 then fold_right Z.max 0 strord + min_sto else min_sto).
-  rewrite (fold_ext _ (sto_step ds strord ms)) by (intros; apply gen_sto_step_eq).
-  assert (Hlen : forall l st, length (fst (fold_left (sto_step ds strord ms) l st)) = length (fst st)).
+  rewrite (fold_ext _ (sto_step ds strord mask ms)) by (intros; apply gen_sto_step_eq).
+  assert (Hlen : forall l st, length (fst (fold_left (sto_step ds strord mask ms) l st)) = length (fst st)).
   { induction l as [|x l IH]; intros st; cbn [fold_left]; [reflexivity|]. rewrite IH. apply sto_step_len. }
   specialize (Hlen (rev sq) (repeat 0 (length ds), [])). cbn [fst] in Hlen. rewrite repeat_length in Hlen.
-  destruct (fold_left (sto_step ds strord ms) (rev sq) (repeat 0 (length ds), [])) as [sb ix]. cbn [fst snd] in *.
+  destruct (fold_left (sto_step ds strord mask ms) (rev sq) (repeat 0 (length ds), [])) as [sb ix]. cbn [fst snd] in *.
   rewrite gen_fillnodata_upstream_eq by auto. reflexivity.
 Qed.
